@@ -576,7 +576,9 @@ impl PtraceDumper {
             mapping = self.find_mapping_no_bias(stack_pointer);
         }
 
+        // The search may also have ended because the guard distance was used up.
         mapping
+            .filter(|mapping| Self::may_be_stack(Some(mapping)))
             .map(|mapping| {
                 let valid_stack_pointer = if mapping.contains_address(stack_pointer) {
                     stack_pointer
